@@ -887,6 +887,7 @@ fn run_tests(
                 return Ok(true);
             }
 
+            let default_language = parser.language().map(|language| (*language).clone());
             for (i, language_name) in attributes.languages.iter().enumerate() {
                 if !language_name.is_empty() {
                     let language = opts
@@ -1076,9 +1077,11 @@ fn run_tests(
                     }
                 }
 
-                if i == attributes.languages.len() - 1 {
-                    // reset to the first language
-                    parser.set_language(opts.languages.values().next().unwrap())?;
+                if i == attributes.languages.len() - 1
+                    && let Some(default_language) = &default_language
+                {
+                    // reset to the language the tests are run with by default
+                    parser.set_language(default_language)?;
                 }
             }
             test_summary.test_num += 1;
